@@ -54,19 +54,22 @@ class EdMod(xitorch.EditableModule):
         raise KeyError(methodname)
 
 
-def ift1d(cx, entry="rootfinder", placement="explicit", second=True, bck_method=None):
-    """f(y; a,b,c) = a*y^2 + b*y - c with c := a*ys^2 + b*ys (so ys is a root)"""
+def ift1d(cx, entry="rootfinder", placement="explicit", second=True, bck_method=None, fix=False):
+    """f(y; a,b,c) = a*y^2 + b*y - c with c := a*ys^2 + b*ys (so ys is a root).  fix: the root, the initial guess, the
+    non-differentiable tensor and the cotangent are fixed rationals (a, b stay symbolic) - used where the second-order claims
+    through solve's own backward are beyond the solver with everything symbolic"""
     a = cx.sym("a", (1,), requires_grad=True)
     b = cx.sym("b", (1,), requires_grad=True)
-    ys = cx.sym("ys", (1,))
+    ys = cx.const(torch.tensor([0.75], dtype=torch.float64)) if fix else cx.sym("ys", (1,))
     c = (a * ys * ys + b * ys).detach().clone().requires_grad_()
     cx.assume(2 * a.detach() * ys + b.detach() != 0, note="df/dy != 0 at the root")
-    y0 = cx.sym("y0", (1,), requires_grad=True)
+    y0 = cx.const(torch.tensor([0.5], dtype=torch.float64)).requires_grad_() if fix else cx.sym("y0", (1,), requires_grad=True)
     method, seen = _planted(ys)
     kw = {"method": method, "myoption": 3}
     if bck_method is not None:
         kw["bck_options"] = {"method": bck_method}
-    nondiff = cx.sym("nd", (1,))          # a tensor parameter that does not require grad
+    # a tensor parameter that does not require grad
+    nondiff = cx.const(torch.tensor([-1.5], dtype=torch.float64)) if fix else cx.sym("nd", (1,))
     leaves = [a, b, c]
     if placement == "explicit":
         def f(y, a_, b_, c_, k, nd):
@@ -111,7 +114,7 @@ def ift1d(cx, entry="rootfinder", placement="explicit", second=True, bck_method=
     yr = ys.detach()
     for _ in range(2):
         yr = yr - fref(yr) / dfref(yr)
-    g = cx.sym("g", (1,))
+    g = cx.const(torch.tensor([1.25], dtype=torch.float64)) if fix else cx.sym("g", (1,))
     g1 = grads((g * y).sum(), leaves + [y0], create_graph=second)
     g2 = grads((g * yr).sum(), leaves, create_graph=second)
     for nm, x, z in zip("abc", g1, g2):
@@ -199,6 +202,13 @@ def configs(tier):
     for entry in ("rootfinder", "equilibrium", "minimize"):
         add("ift1d/%s/explicit/2nd" % entry, ift1d, entry=entry, placement="explicit", second=True)
     add("ift1d/rootfinder/explicit_nd_first", ift1d, entry="rootfinder", placement="explicit_nd_first", second=False)
+    # second order through solve's own autograd Function (any backward method but the literal "exactsolve") with a
+    # non-differentiable tensor and a number before the differentiable parameters: the Jacobian operator is re-evaluated with
+    # substituted parameters inside solve's backward
+    add("ift1d/rootfinder/explicit_nd_first/2nd/bck_custom_exactsolve/fixed_root_cotangent", ift1d, entry="rootfinder",
+        placement="explicit_nd_first", second=True, bck_method="custom_exactsolve", fix=True)
+    add("ift1d/rootfinder/nnmodule/2nd/bck_custom_exactsolve/fixed_root_cotangent", ift1d, entry="rootfinder", placement="nnmodule",
+        second=True, bck_method="custom_exactsolve", fix=True)
     add("ift1d/rootfinder/nnmodule/2nd", ift1d, entry="rootfinder", placement="nnmodule", second=True)
     add("ift1d/rootfinder/editable/2nd", ift1d, entry="rootfinder", placement="editable", second=True)
     add("ift1d/rootfinder/explicit/bck_custom_exactsolve", ift1d, entry="rootfinder", placement="explicit", second=False,
